@@ -192,6 +192,39 @@ def oracle(ctx):
         if ip.get('out') != impl.get('out'):
             ctx.violation('result depends on the order of the statement attributes in the start tag',
                           {'src': case['src'], 'permuted': p['src']}, expected=impl, actual=ip)
+    # the family written with data-tal-* statements (enable_data_attributes) among ordinary data-* attributes, in every
+    # rotation of the start tag's attributes: same text, the ordinary attributes preserved, the statements gone
+    dcases, dexp = [], []
+    for case, exp, nstm in sel[ctx.seed % 5::5]:
+        m = TAG_RE.search(case['src'])
+        if not m or nstm == 0:
+            continue
+        attrs = ATTR_RE.findall(m.group(2))
+        items = [('data-' + n.replace(':', '-', 1), v) if n.startswith('tal:') else (n, v) for n, v in attrs]
+        items = [items[0], ('data-id', '7')] + items[1:] + [('data-bs-x', 'y')]
+        r = ctx.rng.randrange(len(items))
+        rot = items[r:] + items[:r]
+        src = case['src'][:m.start()] + '<' + m.group(1) + ''.join(' %s="%s"' % kv for kv in rot) + m.group(3) + '>' + case['src'][m.end():]
+        # expected: the plain family's text with the two ordinary attributes where the rotation puts them (static attributes keep
+        # their order of appearance)
+        stat = ''.join(' %s="%s"' % kv for kv in rot if not kv[0].startswith('data-tal-') and kv[0] != 'class')
+        want = exp
+        if '<p' in exp:
+            # the element's tag is shown: class (possibly dynamic/dropped) stays where it was among the static attributes
+            order = [kv[0] for kv in rot if not kv[0].startswith('data-tal-')]
+            import re as _re
+            def fix(mm):
+                cls = mm.group(1) or ''
+                parts = {'class': cls, 'data-id': ' data-id="7"', 'data-bs-x': ' data-bs-x="y"'}
+                return '<p' + ''.join(parts[k] for k in order) + '>'
+            want = _re.sub(r'<p( class="[^"]*")?>', fix, exp)
+        dcases.append({'src': src, 'vars': [], 'objs': [], 'cfg': {'enable_data_attributes': True}})
+        dexp.append(want)
+    for c, want, impl in zip(dcases, dexp, pipeline.impl_many(dcases)):
+        ctx.count('evaluations')
+        if impl.get('out') != want:
+            ctx.violation('with enable_data_attributes the data-tal-* spelling must render like the tal: spelling, whatever the position of '
+                          'ordinary data-* attributes in the start tag', c, expected=want, actual=impl)
     # permutation relation on generated templates
     base, perms = [], []
     for _ in range(ctx.budget(400, 20000)):
